@@ -700,6 +700,57 @@ pub mod std {
             spec fn seek_ok(&self, before: Self, after: Self, pos: SeekFrom, r: Result<u64>) -> bool;
         }
 
+        /// What `copy` leaves in the destination: the bytes before its offset, then the source from its offset on.
+        pub open spec fn copied(dst: Seq<u8>, woff: nat, src: Seq<u8>, roff: nat) -> Seq<u8> {
+            dst.take(woff as int) + src.skip(roff as int)
+        }
+
+        pub proof fn lemma_copied_whole(src: Seq<u8>)
+            ensures
+                copied(Seq::<u8>::empty(), 0, src, 0) == src,
+        {
+            assert(Seq::<u8>::empty().take(0) + src.skip(0) =~= src);
+        }
+
+        /// std::io::copy, narrowed to the one instantiation the crate uses (File to File).  PROTOCOL (C01 C03 C19):
+        /// only a file no reader can see is ever written.  One "step" stands for the whole read/write loop.
+        #[verifier::external_body]
+        pub fn copy(reader: &mut std::fs::File, writer: &mut std::fs::File, Tracked(w): Tracked<&mut World>) -> (r: Result<u64>)
+            requires
+                old(w).inv(),
+                old(w).inodes.contains_key(old(reader).ino()),
+                old(w).inodes.contains_key(old(writer).ino()),
+                old(reader).ino() != old(writer).ino(),
+                old(writer).can_write(),
+                old(w).invisible(old(writer).ino()),   // @L C01 C03 C19:only-a-file-no-reader-can-see-is-ever-written
+            ensures
+                final(w).inv(),
+                final(w).kept(*old(w)) && final(w).listed == old(w).listed && final(w).published == old(w).published,
+                final(w).supplied == old(w).supplied && final(w).owned == old(w).owned && final(w).app_errors == old(w).app_errors,
+                final(w).opens == old(w).opens && final(w).steps == old(w).steps + 1,
+                final(w).hard_faults == old(w).hard_faults + if r.is_err() { 1nat } else { 0nat },
+                final(w).files == old(w).files && final(w).dirs == old(w).dirs,
+                final(reader).ino() == old(reader).ino() && final(reader).can_write() == old(reader).can_write(),
+                final(writer).ino() == old(writer).ino() && final(writer).can_write() == old(writer).can_write(),
+                forall|i: InodeId| #[trigger] final(w).inodes.contains_key(i) <==> old(w).inodes.contains_key(i),
+                forall|i: InodeId| i != old(writer).ino() && old(w).inodes.contains_key(i) ==> #[trigger] final(w).inodes[i] == (Inode { atime: final(w).inodes[i].atime, ..old(w).inodes[i] }),
+                final(w).inodes[old(writer).ino()] == (Inode {
+                    content: final(w).inodes[old(writer).ino()].content,
+                    mtime: final(w).inodes[old(writer).ino()].mtime,
+                    atime: final(w).inodes[old(writer).ino()].atime,
+                    synced: false,
+                    ..old(w).inodes[old(writer).ino()]
+                }),
+                r.is_ok() ==> final(w).inodes[old(writer).ino()].content == copied(
+                    old(w).inodes[old(writer).ino()].content,
+                    old(writer).offset(),
+                    old(w).inodes[old(reader).ino()].content,
+                    old(reader).offset(),
+                ),
+        {
+            unimplemented!()
+        }
+
         impl Seek for std::fs::File {
             open spec fn seek_ok(&self, before: Self, after: Self, pos: SeekFrom, r: Result<u64>) -> bool {
                 &&& after.ino() == before.ino()
